@@ -138,13 +138,13 @@ func mergeConfigDict(opts *options, to, from *Config) Error {
 
 		// (what is stored is a copy: a handle to the old value is no longer
 		// a part of to)
-		detach(to, old)
+		detach(to, k, old)
 		to.fields.set(k, merged.cpy(ctx))
 	}
 
 	if opts.configValueHandling == cfgReplaceValue {
-		for _, v := range replaced {
-			detach(to, v)
+		for k, v := range replaced {
+			detach(to, k, v)
 		}
 	}
 	ok = true
@@ -186,8 +186,8 @@ func mergeConfigReplaceArr(opts *options, to, from *Config) Error {
 		a: make([]value, 0, len(a)),
 	}
 	fields.append(parent, a)
-	for _, v := range to.fields.array() {
-		detach(to, v)
+	for i, v := range to.fields.array() {
+		detach(to, fmt.Sprintf("%d", i), v)
 	}
 	*to.fields = fields
 	return nil
@@ -219,7 +219,7 @@ func mergeConfigMergeArr(opts *options, to, from *Config) Error {
 		if err != nil {
 			return err
 		}
-		detach(to, old)
+		detach(to, ctx.field, old)
 		to.fields.setAt(i, parent, merged.cpy(ctx))
 	}
 
@@ -244,8 +244,8 @@ func mergeConfigPrependArr(opts *options, to, from *Config) Error {
 	}
 	fields.append(parent, a2)
 	fields.append(parent, a1)
-	for _, v := range a1 {
-		detach(to, v)
+	for i, v := range a1 {
+		detach(to, fmt.Sprintf("%d", i), v)
 	}
 	*to.fields = fields
 	return nil
